@@ -234,6 +234,12 @@ inductive Op where
   | setNames (names : Option (List String))
   /-- `td.rename_key_(old, new)` -/
   | rename (old new : List String)
+  /-- `td[k1], td[k2] = td[k2], td[k1]` on two existing keys: the right-hand side is read first, then each
+      key is re-bound to the *other tensor object* (`_set_str` stores the tensor it is given, no copy):
+      both keys keep their place in the dict, the tensors (dtype, shape, memory) change places -/
+  | swap (k1 k2 : List String)
+  /-- `td[dst] = td[src]`: `dst` (new or existing) is bound to the tensor `src` is bound to -/
+  | assign (dst src : List String)
   deriving Repr
 
 def setLocked (b : Bool) (td : TD) : TD :=
@@ -299,6 +305,29 @@ def step (s : State) : Op → State
       let es := (insertInSubtree s.td.entries renamed).filter (·.key != old)
       { s with td := { s.td with entries := es } }
 
+  | .swap k1 k2 =>
+    match s.td.entries.find? (·.key == k1), s.td.entries.find? (·.key == k2) with
+    | some e1, some e2 =>
+      { s with td := { s.td with entries := s.td.entries.map fun e =>
+          if e.key == k1 then ⟨k1, e2.lm, e2.ref⟩ else if e.key == k2 then ⟨k2, e1.lm, e1.ref⟩ else e } }
+    | _, _ => s
+  | .assign dst src =>
+    match s.td.entries.find? (·.key == src) with
+    | none => s
+    | some e =>
+      if s.td.entries.any (·.key == dst) then
+        { s with td := { s.td with entries := s.td.entries.map fun e' => if e'.key == dst then ⟨dst, e.lm, e.ref⟩ else e' } }
+      else
+        { s with td := { s.td with entries := insertInSubtree s.td.entries ⟨dst, e.lm, e.ref⟩ } }
+
 def run (s : State) (ops : List Op) : State := ops.foldl step s
+
+/-- the check of the seeded variant of `_consolidated_is_current` that only asks every leaf to be *some*
+    view of the storage (same metadata, same untyped storage) instead of the view at its own offset -/
+def describesSomeSlot (sn : Snap) (td : TD) : Bool :=
+  (normNodes sn.nodes == normNodes td.nodes)
+    && (sn.leaves.map (fun p => (p.1, p.2.1)) == td.entries.map (fun e => (e.key, e.lm)))
+    && (sn.leaves.map (fun p => p.2.2) == layout (td.entries.map fun e => e.lm.nbytes))
+    && td.entries.all fun e => match e.ref with | .slot _ => true | .own _ => false
 
 end TdVerif.C11
